@@ -5,6 +5,7 @@ import (
 	"net/url"
 	"reflect"
 	"sort"
+	"strings"
 
 	"verif/internal/onto"
 	"verif/internal/prng"
@@ -253,6 +254,18 @@ func (c *c12) judgeLiteral(P, K string, admissible bool, sample interface{}, hos
 	}
 	if _, isMap := sample.(map[string]interface{}); isMap && typelessInRange(P) {
 		return // any JSON object is lexically a value of a typeless type
+	}
+	if str, isStr := sample.(string); isStr && inList(O.KindLits(P), "XMLSchemaString") && strings.ContainsAny(str, " <>\"{}|\\^`") {
+		// a string with a character no IRI can hold (RFC 3987: space and
+		// <>"{}|\^`) is text and nothing else, whatever precedes its first
+		// colon: where the range holds text, it does not denote an IRI
+		kept := cands[:0]
+		for _, k := range cands {
+			if k != "IRI" {
+				kept = append(kept, k)
+			}
+		}
+		cands = kept
 	}
 	fl := trueFlags(elem)
 	if len(fl) == 0 {
